@@ -1,6 +1,31 @@
-"""C14 - a statement that returns an error changes nothing."""
+"""C14 - a statement that returns an error changes nothing (immediately and after a restart).
+
+Two parts, both specification -> code (behaviour replay):
+
+1. Store.tla (StoreRun): page-level histories whose last statement fails - wrong type, oversized row, column count,
+   INT out of range, unknown table, duplicate CREATE TABLE, the failing row at every position of a multi-row INSERT,
+   WHERE clauses that fail on a NULL - on small trees, three-level trees and rows at the 400-byte limit; the tables and
+   the catalog are compared before / after the statement, after flush + cache drop, after Close + InitStorage and after a
+   crash + InitStorage.  Rows of Store.tla hold one value, so an UPDATE has the same outcome on every row there.
+
+2. ValueStore.tla with MixedUpd = TRUE (the scenario runner of C08, tools/check_c08.run_configs): multi-column rows with
+   exact encoded sizes, where `UPDATE t SET ...` is accepted by some rows and refused by others - the SET string suits the
+   first row (that is how the bounded instance sizes it) and makes a LATER row exceed 400 bytes because of that row's other,
+   longer column (`later-refused`), or it overflows the first row only (`first-refused`).  The specification's UpdateAll is
+   atomic: ok iff every new row is accepted, otherwise abs / mem / disk are unchanged (action property
+   RefusedChangesNothing, checked by TLC).  ValueStoreMC enumerates tables of 2-3 rows over VARCHAR,VARCHAR and three-column
+   VARCHAR/INT schemas (short row first and long row first), SET lists from the classes l1 / l150 / l300 / f400 / f401,
+   uniform type / range errors, and the lifecycle steps flush / evict-all / restart before and after the refused UPDATE
+   ("after a restart"); every scenario ends in a SELECT * whose rows must be the rows the history implies, cell for
+   cell.  Each scenario is run with direct statement values and as SQL text.  A scenario that fails is re-run from
+   scratch and reported under C14 with a signature naming the refused statement and its value classes.
+"""
+import json
+import re
+
 import vlib
 import storelib
+import check_c08 as vs
 
 CFGS = {
     "quick": [("c14-a", dict(BadMode='"type-size"', MaxStmts=3, MaxRows=3, MaxFlush=0, Tables='{"t1", "t2"}', Vals="{1}"), None),
@@ -17,7 +42,171 @@ CFGS = {
 }
 
 
+# ---------------------------------------------------------------- part 2: ValueStoreMC with mixed-outcome UPDATEs
+
+def V(name, types, ncols, strcls, maxmut, maxlife, lifefrom, emit="mixed-upd", wrong=False, null=False, maxbad=1, intcls=("1", "max32p1")):
+    return dict(name=name, MinCols=ncols, MaxCols=ncols, Types=list(types), IntCls=list(intcls), BigCls=["0"], StrCls=list(strcls),
+                WithNull=null, WithWrong=wrong, MaxBad=maxbad, WithUpd=True, MaxMut=maxmut, MaxLife=maxlife, LifeFrom=lifefrom,
+                EmitSel=emit, MixedUpd=True)
+
+
+# gauged with EmitOn on 16 cores (scenarios printed / TLC seconds): see DESIGN 11 and the evidence file
+VS_CFGS = {
+    "quick": [
+        # two rows (short first, long first), one lifecycle step before or after the UPDATE; f400 / f401: off by one byte
+        V("mix-vv", ["VARCHAR"], 2, ["l1", "l150", "l300", "f400", "f401"], 3, 1, 2),
+        # every order of up to three lifecycle steps after the refused UPDATE
+        V("mix-vv-life", ["VARCHAR"], 2, ["l1", "l300", "f400"], 3, 3, 3),
+        # three columns over VARCHAR / INT (VARCHAR,INT,VARCHAR among them), lifecycle after the UPDATE
+        V("mix-viv", ["VARCHAR", "INT"], 3, ["l1", "l300", "f400"], 3, 1, 3, maxbad=0, intcls=("1",)),
+        # uniform causes (wrong type, INT out of range, oversized for every row) next to the mixed ones
+        V("mix-iv-uniform", ["VARCHAR", "INT"], 2, ["l1", "l300", "f400"], 3, 1, 3, emit="refused-upd", wrong=True),
+    ],
+    "thorough": [
+        V("mix-vv", ["VARCHAR"], 2, ["l0", "l1", "l150", "l300", "f399", "f400", "f401"], 3, 2, 2, wrong=True, null=True),
+        V("mix-vv-life", ["VARCHAR"], 2, ["l1", "l150", "l300", "f400"], 3, 4, 3),
+        V("mix-viv", ["VARCHAR", "INT"], 3, ["l1", "l300", "f400", "f401"], 3, 2, 2),
+        # three rows, the refusing row second or third; statements after the refused UPDATE
+        V("mix-3rows", ["VARCHAR"], 2, ["l1", "l150", "l300", "f400"], 4, 2, 3, maxbad=0),
+        V("mix-all-uniform", ["INT", "BIGINT", "BOOLEAN", "VARCHAR"], 2, ["l1", "l300", "f400"], 3, 1, 3, emit="refused-upd", wrong=True),
+    ],
+}
+
+
+def stmt_name(schema, s):
+    """A refused / accepted statement by its value classes, e.g. upd[c1=VARCHAR:l150;later-refused]."""
+    if s["a"] == "upd":
+        body = ",".join("c%d=%s" % (it["c"], vs.cls_name(schema, it["c"], it["v"])) for it in s["set"])
+        return "upd[%s;%s]" % (body, s.get("mixed", "?"))
+    if s["a"] == "put":
+        return "put[%s]" % ",".join(vs.cls_name(schema, j + 1, c) for j, c in enumerate(s["row"]))
+    return s["a"]
+
+
+def c14_fid(scn, path, viol):
+    """Signature: what was observed, after which statement (the last refused one before the step that went wrong, else
+    the last statement), on which schema."""
+    m = re.match(r"step (\d+):", viol[0][1])
+    at = int(m.group(1)) if m else len(scn["steps"]) - 1
+    muts = [s for s in scn["steps"][:at + 1] if s["a"] in ("put", "upd")]
+    refused = [s for s in muts if not s["ok"]]
+    culprit = (refused or muts or [{"a": "none"}])[-1]
+    return "c14-vs-%s-%s-after-%s-%s-on-%s" % (path, viol[0][0], "refused" if refused else "accepted", stmt_name(scn["schema"], culprit),
+                                               ",".join(scn["schema"]))
+
+
+class MixStats(vs.Stats):
+    """What the value-store part replayed without a finding: refused UPDATEs by kind, the distinct situations
+    (schema, rows by value class, SET list), and the lifecycle steps between a mixed refused UPDATE and the read."""
+
+    def __init__(self):
+        super().__init__()
+        paths = ("direct", "text")
+        self.mixed = {p: {"later-refused": 0, "first-refused": 0} for p in paths}
+        self.uniform = {p: 0 for p in paths}
+        self.distinct = {"later-refused": set(), "first-refused": set(), "uniform": set()}
+        self.after = {p: set() for p in paths}       # lifecycle steps after a mixed refused UPDATE, before the read
+        self.before = {p: set() for p in paths}      # lifecycle steps between the last INSERT and a mixed refused UPDATE
+        self.rows_at = {p: set() for p in paths}     # numbers of rows in the table at a mixed refused UPDATE
+        self.then_stmt = {p: 0 for p in paths}       # a further statement after the mixed refused UPDATE
+
+    def add(self, scn, path):
+        super().add(scn, path)
+        schema = tuple(scn["schema"])
+        table = []       # rows by value class, following the outcomes TLC states (bookkeeping, no rule is re-implemented)
+        life = []
+        pending = None   # a mixed refused UPDATE seen, waiting for the read
+        for s in scn["steps"]:
+            a = s["a"]
+            if a == "put":
+                if pending is not None:
+                    self.then_stmt[path] += 1
+                if s["ok"]:
+                    table.append([(c["t"], c["cls"], c["len"]) for c in s["row"]])
+                life = []
+            elif a == "upd":
+                if pending is not None:
+                    self.then_stmt[path] += 1
+                key = (schema, tuple(tuple(r) for r in table), tuple((it["c"], it["v"]["t"], it["v"]["cls"], it["v"]["len"]) for it in s["set"]))
+                kind = s.get("mixed", "no")
+                if s["ok"]:
+                    for r in table:
+                        for it in s["set"]:
+                            r[it["c"] - 1] = (it["v"]["t"], it["v"]["cls"], it["v"]["len"])
+                elif kind in self.mixed[path]:
+                    self.mixed[path][kind] += 1
+                    self.distinct[kind].add(key)
+                    self.before[path].update(life)
+                    self.rows_at[path].add(len(table))
+                    pending = []
+                else:
+                    self.uniform[path] += 1
+                    self.distinct["uniform"].add(key)
+                life = []
+            elif a in ("flush", "evict", "restart"):
+                life.append(a)
+                if pending is not None:
+                    pending.append(a)
+            elif a == "get" and pending is not None:
+                self.after[path].update(pending)
+                self.after[path].add("immediately" if not pending else "later")
+
+
+def run_valuestore(ctx, cov):
+    """Part 2: mixed-outcome UPDATEs of ValueStore.tla replayed through C08's scenario runner, judged as C14."""
+    binary = vlib.build_harness(ctx, "valstore")
+    vcov = vs.new_cov()
+    vcov["rule"] = ("one evaluation = one TLC-generated ValueStoreMC scenario (MixedUpd = TRUE; inserts, an UPDATE without WHERE that some or all "
+                    "rows refuse, lifecycle steps, SELECT *) executed on the real engine on one input path (direct statement values or SQL text)")
+    st = MixStats()
+    pool = vlib.WorkerPool(ctx, binary, n=min(12, vlib.NCPU))
+    try:
+        failing = vs.run_configs(ctx, pool, VS_CFGS[ctx.tier], vcov, st, fid_of=c14_fid)
+        vs.confirm_failing(ctx, pool, failing)
+        vcov["failing_signatures"] = sorted(failing)
+    finally:
+        pool.close()
+    vcov["text_skipped"] = st.skips
+    vcov["executed"] = st.executed
+    vcov["mixed_refused_updates_replayed"] = {p: dict(st.mixed[p], total=sum(st.mixed[p].values())) for p in st.mixed}
+    vcov["mixed_refused_updates_replayed"]["total"] = sum(sum(st.mixed[p].values()) for p in st.mixed)
+    vcov["distinct_mixed_refused_updates"] = {k: len(v) for k, v in st.distinct.items() if k != "uniform"}
+    vcov["uniform_refused_updates_replayed"] = dict(st.uniform, distinct=len(st.distinct["uniform"]))
+    vcov["read_after_mixed_refused_update"] = {p: sorted(st.after[p]) for p in st.after}
+    vcov["lifecycle_before_mixed_refused_update"] = {p: sorted(st.before[p]) for p in st.before}
+    vcov["rows_in_table_at_mixed_refused_update"] = {p: sorted(st.rows_at[p]) for p in st.rows_at}
+    vcov["statements_after_mixed_refused_update"] = st.then_stmt
+    vcov["classes_direct"] = sorted(st.cls["direct"])
+    vcov["classes_text"] = sorted(st.cls["text"])
+    vcov["distinct_nontrivial"] = sum(vcov["distinct_mixed_refused_updates"].values())
+    cov["valuestore"] = vcov
+    cov["states"] += vcov["states"]
+    cov["transitions"] += vcov["transitions"]
+    cov["traces_validated_against_impl"] += vcov["evaluations"]
+    cov["mixed_refused_updates_replayed"] = vcov["mixed_refused_updates_replayed"]["total"]
+    cov["distinct_mixed_refused_updates"] = vcov["distinct_nontrivial"]
+
+    # ---- vacuity (failing scenarios are not counted, so only meaningful when nothing failed)
+    if not ctx.violations and not ctx.known:
+        for p in ("direct", "text"):
+            for kind in ("later-refused", "first-refused"):
+                if not st.mixed[p][kind]:
+                    raise vlib.Undecided("vacuous: %s path replayed no UPDATE that only some rows refuse (%s)" % (p, kind))
+            for x in ("immediately", "flush", "evict", "restart"):
+                if x not in st.after[p]:
+                    raise vlib.Undecided("vacuous: %s path never read the table %s after an UPDATE that only some rows refuse"
+                                         % (p, x if x == "immediately" else "after " + x))
+            if not st.uniform[p]:
+                raise vlib.Undecided("vacuous: %s path replayed no UPDATE that every row refuses" % p)
+
+
 def run(ctx):
+    if ctx.replay and json.load(open(ctx.replay)).get("kind") == "valstore-replay":
+        pool = vlib.WorkerPool(ctx, vlib.build_harness(ctx, "valstore"), n=1)
+        try:
+            return vs.replay_one(ctx, pool, json.load(open(ctx.replay)))
+        finally:
+            pool.close()
     binary = vlib.build_harness(ctx, "store")
     if ctx.replay:
         return storelib.replay_file(ctx, binary, ctx.replay)
@@ -42,7 +231,15 @@ def run(ctx):
     cov["failing_statements_replayed"] = sum(kinds.values())
     if cov["failing_statements_replayed"] == 0:
         raise vlib.Undecided("vacuous: no failing statement replayed")
+    run_valuestore(ctx, cov)
     vlib.write_evidence(ctx, "model_checking", cov, assumptions=[
         "TLC, SANY, CommunityModules", "capacity override 3/3 (hook verifIsFull)",
         "failing causes rendered as SQL: wrong type ('x' into INT), oversized row (450-byte string), column count mismatch, INT 3000000000, unknown table, duplicate CREATE TABLE",
-        "'immediately and after a restart': the end-of-scenario probes re-read after flush+cache drop, after Close+InitStorage and after a crash+InitStorage"])
+        "'immediately and after a restart': the end-of-scenario probes re-read after flush+cache drop, after Close+InitStorage and after a crash+InitStorage",
+        "an UPDATE that only some of the matching rows refuse (new row over 400 bytes because of that row's other columns) is covered by the "
+        "ValueStore.tla part (MixedUpd = TRUE, coverage.valuestore): UPDATE without WHERE on tables of 2 rows (2-3 in the thorough tier) over VARCHAR / INT "
+        "schemas with real page capacities, the refusing row first or later, direct statement values and SQL text, read back immediately "
+        "and after flush / evict-all / Close+InitStorage (no crash in this part; crashes after a failing statement are in the Store.tla part); "
+        "the harness takes the string lengths from TLC's scenario and this check cross-checks them against what the harness reports it supplied",
+        "mixed-outcome multi-row INSERT is the Store.tla part's subject (failing row at every position); mixed-outcome UPDATE with a WHERE clause "
+        "selecting a subset is not enumerated (the WHERE filter runs before validation and is C05's subject)"])
